@@ -34,6 +34,14 @@ def show_answers(answers, limit=12):
     return '[' + ' '.join(s) + ']'
 
 
+def script_text(sc):
+    """a script is (clauses, overwrite, shared[, text]); text overrides the printed clauses
+    (used when the exact source spelling is the thing under test)"""
+    if len(sc) > 3 and sc[3] is not None:
+        return sc[3]
+    return show_program(sc[0])
+
+
 class Case:
     """one differential case.  scripts: [(clauses, overwrite, shared)], facts: [(term, append)],
     queries: [goal] (observed: all variables of the goal)"""
@@ -47,13 +55,13 @@ class Case:
         self.ref_depth = ref_depth
 
     def describe(self):
-        d = {'scripts': [{'text': show_program(cl), 'overwrite': ow} for cl, ow, _ in self.scripts],
+        d = {'scripts': [{'text': script_text(sc), 'overwrite': sc[1]} for sc in self.scripts],
              'facts': [{'fact': show_term(t), 'append': ap} for t, ap in self.facts],
              'queries': [show_term(q) for q in self.queries]}
         return d
 
     def to_json(self):
-        return {'scripts': [[_j(cl), ow, sh] for cl, ow, sh in self.scripts],
+        return {'scripts': [[_j(sc[0]), sc[1], sc[2], script_text(sc)] for sc in self.scripts],
                 'facts': [[_j(t), ap] for t, ap in self.facts],
                 'queries': [_j(q) for q in self.queries],
                 'repeat': self.repeat, 'ref_steps': self.ref_steps, 'ref_depth': self.ref_depth,
@@ -61,7 +69,7 @@ class Case:
 
     @staticmethod
     def from_json(d):
-        return Case([(_t(cl), ow, sh) for cl, ow, sh in d['scripts']],
+        return Case([(_t(sc[0]), sc[1], sc[2], sc[3]) for sc in d['scripts']],
                     [(_t(t), ap) for t, ap in d['facts']],
                     [_t(q) for q in d['queries']], d.get('repeat', 2),
                     d.get('ref_steps', 20000), d.get('ref_depth', 60))
@@ -71,25 +79,25 @@ class Case:
         status: 'ok' | 'violation' | 'skip' """
         # --- reference
         ref = Ref(self.ref_steps, self.ref_depth)
-        for cl, ow, _ in self.scripts:
-            ref.consult(cl, ow)
+        for sc in self.scripts:
+            ref.consult(sc[0], sc[1])
         for t, ap in self.facts:
             ref.assert_fact(t, append=ap)
         # --- implementation
         try:
             with watchdog():
                 pytexts = []
-                for cl, ow, shared in self.scripts:
-                    text = show_program(cl)
-                    pytexts.append(compile_cached(text) if shared else impl.compile_text(text))
+                for sc in self.scripts:
+                    text = script_text(sc)
+                    pytexts.append(compile_cached(text) if sc[2] else impl.compile_text(text))
         except Hang as e:
             return self._viol('compile:hang', str(e))
         except Exception as e:  # noqa: BLE001
             return self._viol('compile:' + impl.exc_sig(e), 'the compiler raised %r' % (e,))
         try:
             yp = impl.YP()
-            for (cl, ow, _), py in zip(self.scripts, pytexts):
-                yp.load_script_from_string(py, fn=impl.SCRIPT_FN, overwrite=ow)
+            for sc, py in zip(self.scripts, pytexts):
+                yp.load_script_from_string(py, fn=impl.SCRIPT_FN, overwrite=sc[1])
         except Exception as e:  # noqa: BLE001
             return self._viol('load:' + impl.exc_sig(e), 'loading the compiled code raised %r' % (e,))
         try:
